@@ -248,7 +248,9 @@ func (b *rNode) valid() bool {
 		if curr < prev {
 			return false
 		} else if curr != prev {
-			if tTag := b[(8*i)+7]; tTag == 0xFD {
+			// The previous element's DRange, [prev .. curr), is non-empty, so
+			// that element must not be a 0xFD Codec Element.
+			if tTag := b[(8*i)-1]; tTag == 0xFD {
 				return false
 			}
 		}
